@@ -145,16 +145,34 @@ def gen_cases(rng, mode, n, prefix="g"):
 # ------------------------------------------------------------------------------------------------------
 # running
 
-def run_impl(ctx, impl, mode, cases, tag, timeout=60):
-    """-> (logs by case id, status) ; status 'ok' | 'crash' | 'timeout'.  The harness flushes after every case,
-    so after a crash / hang the first case without output is the culprit."""
+def run_impl(ctx, impl, mode, cases, tag, timeout=90, depth=0):
+    """-> (logs by case id, status) ; status 'ok' | 'crash ...' | 'timeout'.  The harness flushes after every case and
+    dumps the log of a case that crashes or hangs (extra line 'monitor crashed|hung'), then exits: the rest of the
+    batch is re-run."""
     cf = os.path.join(ctx.work, tag + ".txt")
     conc_check.write_cases(cf, cases)
     rc, out = vcheck.sh([impl, cf, mode], timeout=timeout)
     logs = conc_check.parse_logs(out)
     if rc == 0:
         return logs, "ok"
-    return logs, ("timeout" if rc == 124 else "crash rc=%d" % rc)
+    status = "timeout" if rc == 124 else "crash rc=%d" % rc
+    last = -1
+    for k, c in enumerate(cases):
+        if c["id"] in logs and logs[c["id"]]["end"] is not None:
+            last = k
+    if 0 <= last < len(cases) - 1 and depth < 6 and bad_end(logs[cases[last]["id"]]):
+        more, _ = run_impl(ctx, impl, mode, cases[last + 1:], tag + "r", timeout, depth + 1)
+        logs.update(more)
+    return logs, status
+
+
+def bad_end(ilog):
+    """'crashed' / 'hung' when the harness had to abandon the case"""
+    for x in (ilog or {}).get("extra", []):
+        t = x.split()
+        if t[:2] == ["monitor", "crashed"]: return "crashes (signal %s)" % t[2]
+        if t[:2] == ["monitor", "hung"]: return "hangs (a lock is never released, or livelock; no progress within 10 s)"
+    return None
 
 
 def run_model(ctx, model, cases, tag, timeout=300):
@@ -322,15 +340,24 @@ def check_mode(ctx, p, impl, stats):
             st["contended"] += 1; cshapes.add(sh)
         for ft in features(mode, i):
             st["features"][ft] = st["features"].get(ft, 0) + 1
-        for what, detail in monitor_findings(mode, i):
+        finds = monitor_findings(mode, i)
+        be = bad_end(i)
+        for what, detail in finds:
             st["monitor_violations"] += 1; found_real = True
             if ctx.__dict__.setdefault("_seen", set()).__contains__(what):
                 continue
             ctx._seen.add(what)
-            small = minimise(ctx, impl, mode, c, what)
+            small = minimise(ctx, impl, mode, c, what) if be is None else c
             sl, _ = run_impl(ctx, impl, mode, [small], "minrun", timeout=20)
-            ctx.violation(what, {"case": small, "mode": mode, "monitor": detail, "original_case": c,
-                                 "impl_log": (sl.get(small["id"]) or i)["lines"]})
+            ctx.violation(what + (" - and then the real code " + be if be else ""),
+                          {"case": small, "mode": mode, "monitor": detail, "original_case": c, "impl_log": (sl.get(small["id"]) or i)["lines"]})
+        if be is not None:
+            found_real = True
+            if not finds and "abandoned" not in ctx.__dict__.setdefault("_seen", set()):
+                ctx._seen.add("abandoned")
+                ctx.violation("%s: the real code %s on a deadlock-free client program (the model terminates normally)" % (md["what"], be),
+                              {"case": c, "mode": mode, "model_log": (m or {}).get("lines", [])[-60:], "impl_log_tail": i["lines"][-60:]})
+            continue
         if m is None:
             st["diverged"] += 1
             first_div = first_div or (c, {"index": -1, "model": "<no output>", "impl": "ok", "prefix": []})
